@@ -656,3 +656,10 @@ def shrink(case, fails):
         if fails(t): cur = t
         else: break
     return cur
+
+
+def translate(repo, gen_dir):
+    """regenerate Gen/C18_Kernel.v (kernel expressions of haplo.py and of the OHV / OPV / genotype-builder problem modules) from the
+    current source; fail closed"""
+    from translate import c18_kernel
+    return [c18_kernel.translate(repo, gen_dir)]
